@@ -15,6 +15,15 @@ Mirrors (hand-written; tied by the whole-link correspondence `ehframe`):
   `take_eh_frame_hdr_entry` yields `None` when the allocation is used up (the entry is then silently
   not written); `eh_frame_hdr_entry_count` = allocated bytes / 8; `sort_eh_frame_hdr_entries`
   (stable `par_sort_by_key` on frame_ptr).
+An object may have SEVERAL `.eh_frame` input sections (a plain one plus one per COMDAT group): layout
+(`ObjectLayoutState::activate` → `load_exception_frame_data` per `SectionSlot::FrameData`, in section
+order) appends the frames of a later section to the object's one frame vector (`frame_index_offset =
+exception_frames.len()`), and the writer visits the sections in the same order, each with a fresh
+`input_pos`/`cies_offset_conversion`, `eh_frame_start_address` advancing by the section's
+`output_pos`, the hdr allocation shared. `Obj.entries` is therefore the object's entry list over
+ALL its `.eh_frame` sections in section order and `Fde.ciePos` an offset in that concatenation; the
+per-section restart of `input_pos` (`goSections` below) is the same computation
+(Props/C10.lean `goSections_eq_concat`; the tie checks that no CIE pointer leaves its own section).
 CIEs are NOT deduplicated by the code that exists (`finalise_object_sizes` has a TODO): every
 object's CIEs are copied, so "the output position of its input CIE" is the copy in the same object.
 Addresses are natural numbers (32-bit range checks of the hdr fields are out of scope).
@@ -24,7 +33,8 @@ namespace Wild.EhFrame
 
 structure Fde where
   size : Nat
-  /-- input offset (within the object's `.eh_frame`) of the CIE the FDE points to -/
+  /-- input offset (within the object's `.eh_frame` sections, concatenated in section order) of the CIE
+  the FDE points to -/
   ciePos : Nat
   /-- section index of the pc_begin relocation's symbol; `none`: the FDE has no pc_begin relocation -/
   target : Option Nat
@@ -124,6 +134,35 @@ def layoutCount (o : Obj) : Nat :=
 counted for it. -/
 def writeObj (o : Obj) (base : Nat) : Option St :=
   go o base o.entries { inPos := 0, outPos := 0, cmap := [], cap := layoutCount o, outs := [], hdr := [] }
+
+/-! ## Several `.eh_frame` input sections in one object -/
+
+/-- The CIE reference of an FDE moved by `off` (the start offset of the FDE's section in the
+concatenation of the object's `.eh_frame` sections). -/
+def Entry.shift (off : Nat) : Entry → Entry
+  | .cie s t => .cie s t
+  | .fde f => .fde { f with ciePos := off + f.ciePos }
+
+/-- total input size of a section's entries -/
+def sizeSum (es : List Entry) : Nat := (es.map Entry.size).sum
+
+/-- The writer as the code has it for an object with several `.eh_frame` input sections
+(`write_eh_frame_data` once per `SectionSlot::FrameData`, in section order): every section is a
+pass of its own with `input_pos = 0`, `output_pos = 0` and an empty `cies_offset_conversion`
+(`Fde.ciePos` relative to the SECTION here); `table_writer.eh_frame_start_address` has advanced by
+the previous sections' `output_pos`; the hdr allocation, the output and the table are shared. -/
+def goSections (o : Obj) (base : Nat) : List (List Entry) → St → Option St
+  | [], st => some st
+  | es :: rest, st =>
+    match go o (base + st.outPos) es { st with inPos := 0, outPos := 0, cmap := [] } with
+    | none => none
+    | some st' => goSections o base rest { st' with outPos := st.outPos + st'.outPos }
+
+/-- What the tie sends instead: ONE entry list, the sections concatenated in section order, CIE
+references made relative to the concatenation (Props/C10.lean `goSections_eq_concat`: same result). -/
+def concatSections : List (List Entry) → Nat → List Entry
+  | [], _ => []
+  | es :: rest, off => es.map (Entry.shift off) ++ concatSections rest (off + sizeSum es)
 
 structure Result where
   outs : List Out
